@@ -16,6 +16,10 @@ def gen(ctx):
             cases.append(t.gen_case(rng, version=v, profile="none", keylen=kl))
         for kl in (ctx.rng.sample(range(40, 4900), 6) if ctx.thorough else [1200, 4700, 4900]):
             cases.append(t.gen_case(rng, version=v, profile="none", keylen=kl, mask=None))
+        for prof in ("ws_aligned",):
+            for _ in range(ctx.n(2, 8)):
+                cases.append(t.gen_case(rng, version=v, profile=prof))
+    cases += t.selfref_cases(rng)
     return cases
 
 
@@ -144,7 +148,10 @@ def run(ctx):
                                  "input": {"kbpk": kbpk.hex(), "ops": [core.op_token(x)[:120] for x in ops]},
                                  "expected": core.show(o_[1]), "observed": [str(x)[:80] for x in u]})
     dist["reused_object_sequences"] = len(seqs)
-    return {"evaluations": len(cases) + len(seqs), "distinct_nontrivial": len(seen), "samples": samples, "distribution": dist,
+    tv, tcalls = t.threaded_wraps(ctx.rng, "roundtrip", rounds=1 if not ctx.thorough else 2)
+    viol += tv
+    dist["wraps_on_shared_object_under_threads"] = tcalls
+    return {"evaluations": len(cases) + len(seqs) + tcalls, "distinct_nontrivial": len(seen), "samples": samples, "distribution": dist,
             "diffs": diffs, "violations": viol,
             "rule": "versions A-D x admissible KBPK sizes x header alphabets incl. non-default reserved x block layouts (none/few/"
                     "251-252 boundary and extended/97-100 blocks/near 9999 total) x key lengths (every residue, up to 4900) x mask "
